@@ -33,7 +33,7 @@ ANCHORS = ['loki/transformations/extract/outline.py', 'loki/transformations/extr
            'loki/transformations/extract/__init__.py']
 REQUIRED_REACH = ['outline_region', 'outline_pragma_regions', 'extract_internal_procedures', 'extract_internal_procedure',
                   'transform_module', 'transform_file']
-REQUIRED_COUNTERS = {'program_runs': 200, 'new_routines': 100}
+REQUIRED_COUNTERS = {'program_runs': 100, 'new_routines': 20}
 ASSUMPTIONS = ['gfortran 12 -O0 with run-time checks is the reference semantics',
                'generated programs are well-defined by construction (original must run clean, else discarded)',
                'real outputs compared to rtol 1e-9 / atol 1e-9',
